@@ -151,7 +151,13 @@ def main(argv=None):
         except Exception as e:  # replay builder problems never hide the violation
             script = None
             ob["replay_error"] = repr(e)
-        header = (f"# Replay for failed obligation {ob['name']}\n# clause: {ob['clause']}\n"
+        header = ("import sys as _sys\n"
+                  "def _pyvc_hook(t, v, tb):\n"
+                  "    import traceback as _tb\n"
+                  "    _tb.print_exception(t, v, tb)\n"
+                  "    _sys.exit(3)  # a crash of the replay script is not a reproduced failure\n"
+                  "_sys.excepthook = _pyvc_hook\n"
+                  f"# Replay for failed obligation {ob['name']}\n# clause: {ob['clause']}\n"
                   f"# solver: z3 sat; model (abridged): {ob.get('detail', '')[:1500]!r}\n"
                   f"# path decisions: {ob.get('path')}\n")
         if script:
